@@ -289,7 +289,10 @@ func OutStructType(outs []OutSpec) reflect.Type {
 			tag = `name:"` + o.Key + `"`
 		}
 		if o.Group != "" {
-			tag = `group:"` + o.Group + `"`
+			if tag != "" {
+				tag += " "
+			}
+			tag += `group:"` + o.Group + `"`
 		}
 		fields = append(fields, reflect.StructField{Name: "R" + strconv.Itoa(i), Type: RType(o.T), Tag: reflect.StructTag(tag)})
 	}
